@@ -702,6 +702,19 @@ else:
             if not np.allclose(got, want, rtol=1e-7):
                 problems.append("sample.reduce(logaddexp, sampled + %s) in one call: %s, sum of the per-slice masses %s"
                                 % (list(X), got.tolist(), want.tolist()))
+    from funsor.integrate import Integrate
+    F = (np.indices(sizes) * (np.arange(len(sizes)) + 1).reshape((-1,) + (1,) * len(sizes))).sum(0) % 7 / 2.0 - 1.0
+    fF = Tensor(F, OrderedDict((n, Bint[k]) for n, k in zip(names, sizes)))
+    for m in range(0, len(extra) + 1):
+        for X in itertools.combinations(extra, m):
+            with np.errstate(all="ignore"):
+                one = Integrate(s, fF, frozenset(event) | frozenset(X))
+                keep = [n for n in extra if n not in X]
+                got = np.asarray(one.align(tuple(keep)).data if keep else one.data, dtype=np.float64)
+            want = (D * F).sum(axis=tuple(i for i, n in enumerate(names) if n in X or n in event))
+            if not np.allclose(got, want, rtol=1e-7, atol=1e-9):
+                problems.append("Integrate(sample, f, sampled + %s) in one call: %s, brute force sum mass*f(point) %s"
+                                % (list(X), got.tolist(), want.tolist()))
     if LAW and len(eff) == 1:
         M = eff[0][1]
         freq = (D > 0).sum(0)
